@@ -128,9 +128,9 @@ def _reg():
     S['knee_ranking.slope_ranking'] = lambda c: [((c.P, c.K, 0.8), {})]
     S['knee_ranking.smooth_ranking'] = lambda c: [((c.P, c.K3, t), {}) for t in (kr.ClusterRanking.left, kr.ClusterRanking.linear, kr.ClusterRanking.right)]
     S['kneedle.differences'] = lambda c: [((c.P, cd, cc), {}) for cd in kneedle.Direction for cc in kneedle.Concavity]
-    S['kneedle.knees'] = lambda c: [((c.P, 1.0, 1.0, p), {}) for p in kneedle.PeakDetection]
+    S['kneedle.knees'] = lambda c: [((c.P, 1.0, 1.0, p), {}) for p in kneedle.PeakDetection] + [((c.P, 0.0, 1.0, p), {}) for p in kneedle.PeakDetection] + [((c.P, 0.5, 2.0, kneedle.PeakDetection.Kneedle), {})]
     S['kneedle.knee'] = lambda c: [((c.P,), {}), ((c.P, 0), {})]
-    S['kneedle.multi_knee'] = lambda c: [((c.P,), {})]
+    S['kneedle.multi_knee'] = lambda c: [((c.P,), {}), ((c.P, 0.0, 2), {})]
     for f in ('linear_fit_points', 'linear_hv_residuals_points', 'linear_fit_residuals_points', 'perpendicular_distance'):
         S['linear_fit.' + f] = lambda c: [((c.P,), {})]
     for f in ('linear_fit', 'linear_hv_residuals', 'linear_fit_residuals'):
@@ -173,17 +173,17 @@ def _reg():
     S['postprocessing.triangle_area'] = lambda c: [((c.P[:3].copy(),), {})]
     S['postprocessing.rank_corners_triangle'] = lambda c: [((c.P, c.K3), {})]
     S['postprocessing.rank_corners'] = lambda c: [((c.P, c.K3), {})]
-    S['rdp.mapping'] = lambda c: [((np.array([0, 1, 2]), c.S, c.R), {}), ((np.array([1, 2]), c.S, c.R[::-1].copy(), False), {})]
+    S['rdp.mapping'] = lambda c: [((np.array([0, 1, 2]), c.S, c.R), {}), ((np.array([1, 2]), c.S, c.R[::-1].copy(), False), {}), (([0, 2], c.S, c.R), {})]
     S['rdp.compute_cost_coef'] = lambda c: [((c.P, c.coef, m), {}) for m in M]
     S['rdp.rdp'] = lambda c: [((c.P, 0.01, d, m), {}) for d in rdp.Distance for m in (M.smape, M.r2)]
     S['rdp.compute_removed_points'] = lambda c: [((c.P, c.S), {})]
     S['rdp.order_triangle'] = lambda c: [((c.P, 2, lf.shortest_distance_points), {})]
     S['rdp.order_area'] = lambda c: [((c.P, 2, lf.perpendicular_distance_points), {})]
     S['rdp.order_segment'] = lambda c: [((c.P, 2), {})]
-    S['rdp.rdp_fixed'] = lambda c: [((c.P, 4, d, o), {}) for d in rdp.Distance for o in rdp.Order]
+    S['rdp.rdp_fixed'] = lambda c: [((c.P, 4, d, o), {}) for d in rdp.Distance for o in rdp.Order] + [((c.P, 0), {}), ((c.P, c.n + 1), {})]
     S['rdp.grdp'] = lambda c: [((c.P, 0.01, rdp.Distance.shortest, m, o), {}) for m in (M.smape, M.rmsle) for o in rdp.Order]
-    S['rdp.mp_grdp'] = lambda c: [((c.P, 0.5, c.n - 1, rdp.Distance.perpendicular, M.rpd, rdp.Order.area), {})]
-    S['rdp.min_point_rdp'] = lambda c: [((c.P, [0.0001, 0.5, 0.01], 3), {}), ((c.P,), {'min_points': 4})]
+    S['rdp.mp_grdp'] = lambda c: [((c.P, 0.5, c.n - 1, rdp.Distance.perpendicular, M.rpd, rdp.Order.area), {}), ((c.P, 1.0, 0, rdp.Distance.shortest, M.r2, rdp.Order.triangle), {})]
+    S['rdp.min_point_rdp'] = lambda c: [((c.P, [0.0001, 0.5, 0.01], 3), {}), ((c.P,), {'min_points': 4}), ((c.P, [0.5], c.n), {})]
     S['zmethod.map_index'] = lambda c: [((c.X, c.X[[1, 3]].copy()), {})]
     S['zmethod.knees2'] = lambda c: [((c.MR, 0.05, 0.05, o), {}) for o in zmethod.Outlier]
     S['zmethod.knees'] = lambda c: [((c.MR, 0.2, 0.1, 0.5), {}), ((c.MR, 0.05, 0.05, 0.5, 3 * c.n, [1, 0]), {})]
